@@ -13,18 +13,18 @@ def plan(tier, seed):
     n = 4 if tier == "quick" else 6
     fl = [H("pf::p1_%s_%s_%d" % (f, m, n), "STANDARD float grammar: accept/reject, count, error kind+index, digit decomposition vs reference recogniser", "arbitrary bytes len<=%d" % n)
           for f in ("f32", "f64") for m in ("partial", "complete")]
-    groups = [KGroup("D", fl, timeout=900 if tier == "quick" else 7200, jobs=6, mem_gb=10, stubbing=True, label="STANDARD floats")]
+    groups = [KGroup("D", fl, timeout=900 if tier == "quick" else 7200, jobs=6, mem_gb=14, stubbing=True, label="STANDARD floats")]
     ints = [H("c04::k1_%s_4" % t, "STANDARD integer grammar vs reference scan", "arbitrary bytes len<=4") for t in ("u8", "i16", "u32", "i64")]
-    groups.append(KGroup("D", ints, timeout=900, jobs=6, mem_gb=8, label="STANDARD integers"))
+    groups.append(KGroup("D", ints, timeout=900, jobs=6, mem_gb=14, label="STANDARD integers"))
     FD = "one syntax flag set: accept/reject, consumed count and digit decomposition vs the flag-parameterised reference recogniser (alphabet + - . 0 1 9 e E x X h n a N i f + one arbitrary byte)"
     if tier == "quick":
         ff = ["f_no_special_4", "f_required_exponent_notation_4", "f_no_float_leading_zeros_4"] + pick([f for f in FFLAGS if f not in ("f_no_special_4", "f_required_exponent_notation_4", "f_no_float_leading_zeros_4")], seed, 3)
         ii = ["int_no_leading_zeros_i32_4", "int_required_sign_i32_4", "p2::int_prefix_x_i32_5", "p2::int_suffix_h_i32_4"]
     else:
         ff, ii = FFLAGS, IFLAGS
-        groups.append(KGroup("F", fl[:4], timeout=7200, jobs=6, mem_gb=10, stubbing=True, label="STANDARD floats, format feature on"))
-    groups.append(KGroup("PF", [H("c12::" + f, FD, "len<=%s" % f[-1]) for f in ff], timeout=1500, jobs=8, mem_gb=10, stubbing=True, label="float syntax flags"))
-    groups.append(KGroup("PF", [H("c12::" + f, "integer syntax flags vs documented grammar [sign][0 prefix]digits[suffix]", "len<=%s" % f[-1]) for f in ii], timeout=1500, jobs=6, mem_gb=8, label="integer syntax flags"))
+        groups.append(KGroup("F", fl[:4], timeout=7200, jobs=6, mem_gb=14, stubbing=True, label="STANDARD floats, format feature on"))
+    groups.append(KGroup("PF", [H("c12::" + f, FD, "len<=%s" % f[-1]) for f in ff], timeout=1500, jobs=8, mem_gb=14, stubbing=True, label="float syntax flags"))
+    groups.append(KGroup("PF", [H("c12::" + f, "integer syntax flags vs documented grammar [sign][0 prefix]digits[suffix]", "len<=%s" % f[-1]) for f in ii], timeout=1500, jobs=6, mem_gb=14, label="integer syntax flags"))
     return {
         "kani": groups,
         "functions_encoded": ["lexical_parse_float::parse::parse_number (through the public API)", "lexical_parse_integer::algorithm"],
